@@ -1,6 +1,7 @@
 package main
 
 import (
+	"fmt"
 	"strings"
 
 	"verifharness/internal/gtext"
@@ -26,21 +27,22 @@ func logicalEq(a, b *wv.V) bool {
 	case wv.TBinary:
 		return string(a.Bin) == string(b.Bin)
 	case wv.TStruct:
-		if len(a.Fields) != len(b.Fields) {
+		// a struct may list an identifier more than once: the last entry is the field (that is
+		// what every decoder of the library makes of it)
+		last := func(v *wv.V) map[uint16]*wv.V {
+			m := map[uint16]*wv.V{}
+			for _, f := range v.Fields {
+				m[f.ID] = f.V
+			}
+			return m
+		}
+		la, lb := last(a), last(b)
+		if len(la) != len(lb) {
 			return false
 		}
-		for _, fa := range a.Fields {
-			found := false
-			for _, fb := range b.Fields {
-				if fa.ID == fb.ID {
-					if !logicalEq(fa.V, fb.V) {
-						return false
-					}
-					found = true
-					break
-				}
-			}
-			if !found {
+		for id, va := range la {
+			vb, ok := lb[id]
+			if !ok || !logicalEq(va, vb) {
 				return false
 			}
 		}
@@ -258,6 +260,64 @@ func c14Program(cs *caseSet, nVal int) {
 				op := "weq " + pair[0].Text() + " " + pair[1].Text()
 				cs.add(opCase{Kind: "C14 ValuesAreEqual zero-sign", Impl: op, Model: op, Want: b01s(logicalEq(pair[0], pair[1])), nontrivial: true,
 					Why: "wire.ValuesAreEqual must treat +0 and -0 as the same double wherever it occurs"})
+			}
+		}
+	}
+	// structs that list a field identifier more than once (finding D87, repaired: the comparison
+	// depended on the order of the arguments): both ways round
+	for i := 0; i < 150; i++ {
+		mk := func() *wv.V {
+			v := &wv.V{T: wv.TStruct}
+			for n := 1 + r.Intn(4); n > 0; n-- {
+				var fv *wv.V
+				if r.Chance(1, 4) {
+					fv = &wv.V{T: wv.TStruct, Fields: []wv.Field{{ID: 1, V: &wv.V{T: wv.TI32, U: uint64(r.Pick(7, 9))}}, {ID: uint16(r.Pick(1, 2)), V: &wv.V{T: wv.TI32, U: 7}}}}
+				} else {
+					fv = &wv.V{T: wv.TI32, U: uint64(r.Pick(7, 9))}
+				}
+				v.Fields = append(v.Fields, wv.Field{ID: uint16(r.Pick(1, 1, 2, 3)), V: fv})
+			}
+			return v
+		}
+		a, bb := mk(), mk()
+		if i == 0 {
+			seven, nine := &wv.V{T: wv.TI32, U: 7}, &wv.V{T: wv.TI32, U: 9}
+			a = &wv.V{T: wv.TStruct, Fields: []wv.Field{{ID: 1, V: seven}, {ID: 1, V: seven}}}
+			bb = &wv.V{T: wv.TStruct, Fields: []wv.Field{{ID: 1, V: seven}, {ID: 2, V: nine}}}
+		}
+		for _, pair := range [][2]*wv.V{{a, bb}, {bb, a}} {
+			op := "weq " + pair[0].Text() + " " + pair[1].Text()
+			cs.add(opCase{Kind: "C14 ValuesAreEqual repeated field ids", Impl: op, Model: op, Want: b01s(logicalEq(pair[0], pair[1])), nontrivial: true,
+				Why: "wire.ValuesAreEqual on structs that repeat a field identifier disagrees with the comparison of the fields they denote (last entry wins), or depends on the order of its arguments"})
+		}
+	}
+	// values as the decoder hands them out, with a container that fails when it is read (the byte
+	// 2 as a bool: the decoder does not look at fixed-width items before they are used). Finding
+	// D88, repaired: the comparison ignored the error — a panic one way round, "equal" the other.
+	{
+		hexOf := func(bs ...byte) string { return hx(bs) }
+		type lz struct {
+			tc   int
+			a, b string
+		}
+		var cases []lz
+		for _, ok := range []byte{0, 1} {
+			cases = append(cases,
+				lz{15, hexOf(2, 0, 0, 0, 1, 2), hexOf(2, 0, 0, 0, 1, ok)},                                              // list<bool>
+				lz{14, hexOf(2, 0, 0, 0, 1, 2), hexOf(2, 0, 0, 0, 1, ok)},                                              // set<bool>
+				lz{15, hexOf(2, 0, 0, 0, 2, ok, 2), hexOf(2, 0, 0, 0, 2, ok, 1)},                                       // second item bad
+				lz{13, hexOf(2, 2, 0, 0, 0, 1, 2, ok), hexOf(2, 2, 0, 0, 0, 1, 1, ok)},                                 // map<bool,bool>, bad key
+				lz{13, hexOf(2, 2, 0, 0, 0, 1, ok, 2), hexOf(2, 2, 0, 0, 0, 1, ok, 1)},                                 // bad value
+				lz{13, hexOf(15, 2, 0, 0, 0, 1, 2, 0, 0, 0, 1, 2, ok), hexOf(15, 2, 0, 0, 0, 1, 2, 0, 0, 0, 1, 1, ok)}, // map<list<bool>,bool>
+				lz{15, hexOf(15, 0, 0, 0, 1, 2, 0, 0, 0, 1, 2), hexOf(15, 0, 0, 0, 1, 2, 0, 0, 0, 1, ok)},              // list<list<bool>>
+				lz{14, hexOf(15, 0, 0, 0, 1, 2, 0, 0, 0, 1, 2), hexOf(15, 0, 0, 0, 1, 2, 0, 0, 0, 1, ok)},              // set<list<bool>>
+				lz{12, hexOf(15, 0, 1, 2, 0, 0, 0, 1, 2, 0), hexOf(15, 0, 1, 2, 0, 0, 0, 1, ok, 0)},                    // struct {1: list<bool>}
+			)
+		}
+		for _, c := range cases {
+			for _, pair := range [][2]string{{c.a, c.b}, {c.a, c.a}} {
+				cs.add(opCase{Kind: "C14 ValuesAreEqual on a container that fails when read", Impl: fmt.Sprintf("weqlazy %d %s %s", c.tc, pair[0], pair[1]), Want: "ok sym", nontrivial: true,
+					Why: "wire.ValuesAreEqual on decoded values panics or depends on the order of its arguments"})
 			}
 		}
 	}
